@@ -873,12 +873,16 @@ class Processor:
                     and hasattr(parent, "merge")
                     and len(parent.merge) > 0
                 ):
-                    for (midx, merge_node) in parent.merge:
-                        if merge_node == compare_node:
-                            for (key, val) in merge_node.items():
-                                if key in parent and parent[key] == val:
+                    # Each entry of the merge list is (position of the
+                    # << key within the Hash, merged Hash); the Hash's own
+                    # keys stay, even when they repeat a merged-in value.
+                    own_keys = [key for key, _ in parent.non_merged_items()]
+                    for list_idx, (_, merge_node) in enumerate(parent.merge):
+                        if merge_node is compare_node:
+                            for key in merge_node.keys():
+                                if key in parent and key not in own_keys:
                                     del parent[key]
-                            del parent.merge[midx]
+                            del parent.merge[list_idx]
                             break
                 elif parentref in parent:
                     del parent[parentref]
